@@ -18,7 +18,7 @@ from vk import probe
 from vk import tree as vtree
 
 LEVEL = 'exploration'
-RULE = ('histories over a pool of 12 trees (elisions, nested scopes, comments, two source paths) and 11 printer objects '
+RULE = ('histories over a pool of 13 trees (elisions, nested scopes, comments, two source paths, one scope of 420 names) and 11 printer objects '
         '(pretty x 3 indents, minify x drop_semi, obfuscating x {globals, shadow}, obfuscate+indent composition, '
         'extractor x fold_ops): every history of length <= 2 (thorough: 3) over a reduced alphabet, and random '
         'histories of 50-200 operations favouring abandon / raise immediately before a full call on the same printer; '
@@ -42,6 +42,8 @@ TEXTS = [
     'var deep = function () { return function inner(aa, bb) { var cc; function decl() { return aa + bb + cc; } return decl; }; };',
     '(function () { "use strict"; var long_name_one = 1, long_name_two = long_name_one; return long_name_two; })();',
     'a = b ? c : d, e = f || g && h; i++; --j; delete k.l; m = [, ]; n = {};',
+    # a scope with several hundred names: generated names get two letters and pass 'do', 'if', 'in'
+    'function many(p0, p1) { var %s; return v0 + v419 + p0 + p1 + free; }' % ', '.join('v%d' % i for i in range(420)),
 ]
 
 
@@ -360,6 +362,15 @@ def run(ctx):
                 seen.add(mech)
                 ctx.violation(mech, {'history': [list(map(lambda x: list(x) if isinstance(x, tuple) else x, op)) for op in history]},
                               '%s\nhistory: %r' % (detail, history[-6:]))
+
+        # every printer, used once on a small tree, then on each tree of the pool
+        for pi in range(np_):
+            if pi % ctx.nshards != ctx.shard:
+                continue
+            hist = [('full', pi, 0)] + [('full', pi, ti) for ti in range(nt - 1, -1, -1)]
+            v = run_history(ctx, world, fp, ctors, hist)
+            ctx.case(tuple(hist), True)
+            report(v, hist)
 
         # exhaustive short histories over a reduced alphabet (partitioned over the shards)
         red_p = [0, 2, 4, 6, 8, 9]
